@@ -83,8 +83,9 @@ func (c *Container) AppendContainer(data *Container) {
 
 // AppendContainerAsBlock appends another Container (length and data). Data will NOT be copied.
 func (c *Container) AppendContainerAsBlock(data *Container) {
+	compartments := data.compartments
 	c.AppendNumber(uint64(data.Length()))
-	c.compartments = append(c.compartments, data.compartments...)
+	c.compartments = append(c.compartments, compartments...)
 }
 
 // HoldsData returns true if the Container holds any data.
